@@ -1,0 +1,10 @@
+//go:build verif
+
+package api
+
+import "github.com/massnetorg/mass-core/txscript"
+
+// VerifExtractAddressInfos exposes extractAddressInfos to the verification harness.
+func VerifExtractAddressInfos(pkScript []byte) (txscript.ScriptClass, string, string, string, int, error) {
+	return extractAddressInfos(pkScript)
+}
